@@ -72,7 +72,7 @@ Fixpoint nodupb (l : list nat) : bool :=
 Definition two_okb (F : list val) (t : val * val * val) : bool :=
   (Nat.eqb (fst (fst t)) (snd t) && negb (mem_nat (snd t) F)) || mem_nat (snd (fst t)) F.
 
-Definition loop_side_ok (F : list val) (o : val) (s : stmt) (pl : lplan) : bool :=
+Definition loop_side_ok (F : list val) (o : val) (nf : nat) (s : stmt) (pl : lplan) : bool :=
   match s with
   | SFor iv lb ub sp iters rs body ys =>
       let k := lp_k pl in let a := lp_a pl in let fs := lp_fs pl in
@@ -88,10 +88,10 @@ Definition loop_side_ok (F : list val) (o : val) (s : stmt) (pl : lplan) : bool 
       (* the erased state is read nowhere as an integer *)
       && forallb (fun x => negb (mem_nat o (flat_reads x))) body && negb (Nat.eqb o iv) && negb (Nat.eqb o sp)
       && forallb (reads_offb F) rest
-      && noneb X F && forallb (fun v => Nat.ltb v nf1) X && forallb (fun v => Nat.ltb v nf1) ys
-      && forallb (fun x => mem_nat x F) (seq nf1 (lp_nfe pl - nf1))
+      && noneb X F && forallb (fun v => Nat.ltb v nf) X && forallb (fun v => Nat.ltb v nf) ys
+      && forallb (fun x => mem_nat x F) (seq nf (lp_nfe pl - nf))
       (* the prologue: everything it reads is below nf; its fresh ids are in F *)
-      && forallb (fun v => Nat.ltb v (S (lp_nf1 pl))) (lb :: inits) 
+      && forallb (fun v => Nat.ltb v nf) (lb :: inits)
       && negb (mem_nat iv F) && negb (mem_nat iv (block_binds (ins ++ rest))) && negb (mem_nat iv bargs)
       && negb (mem_nat sp F) && negb (mem_nat sp (block_binds (ins ++ rest))) && negb (mem_nat sp bargs) && negb (Nat.eqb sp iv)
       && negb (mem_nat lb F) && negb (mem_nat ub F)
@@ -100,7 +100,9 @@ Definition loop_side_ok (F : list val) (o : val) (s : stmt) (pl : lplan) : bool 
       && forallb (two_okb F) (combine (combine inits bargs) inits')
       && forallb (fun ka => bind_okb F (fst ka) (snd ka)) (combine rs bargs)
       (* dependent values occurring in the chain are integers: yields / operands outside F *)
-      && forallb (fun t => negb (mem_nat (fst (fst t)) X) || (negb (mem_nat (snd (fst t)) F) && negb (mem_nat (snd t) F)))
-                 (combine (combine bargs ys) inits)
+      && forallb (fun t => negb (mem_nat (fst t) X) || negb (mem_nat (snd t) F)) (combine bargs ys)
+      && forallb (fun t => negb (mem_nat (fst t) X) || negb (mem_nat (snd t) F)) (combine bargs inits)
+      (* the clone at the end of the body is flat and does not read the erased state either *)
+      && forallb is_flat (lp_epi pl) && forallb (fun x => negb (mem_nat o (flat_reads x))) (lp_epi pl)
   | _ => false
   end.
